@@ -1,12 +1,12 @@
 SPECIFICATION Spec
 CONSTANTS
   S = 2
-  Abis <- AbisQuick
+  Abis <- AbisQuick4
   Cfgs <- Cfgs3
   Types <- TypesSweepQuick
   Pub = FALSE
   MaxK = 3
-  HiK = 10
+  HiK = 8
   Steps = FALSE
 INVARIANT IntExact
 INVARIANT ToPyExact
